@@ -169,6 +169,7 @@ package ociauth
 //@   ensures[split-at-the-first-colon] result.2 == nil ==> result.0 != "" && !contains(result.0, ":") &&
 //@     hasPrefix(string(s), result.0 + ":") && password == string(s)[len(result.0) + 1:]
 //@   ensures[no-user-no-credentials] result.2 != nil ==> result.0 == "" && result.1 == ""
+//@   ensures[standard-base64-alphabet] result.2 == nil ==> string(s) == b64dec(base64.StdEncoding, authStr)
 
 //@ func urlHost
 //@   modifies nothing
@@ -180,9 +181,9 @@ package ociauth
 // Scope.Contains, Scope.Union, ParseScope and Scope.String are used here as
 // pure functions of their (value) arguments; what they compute is C09's
 // business. Token expiry is compared with time.Time's value methods.
-//@ func (Scope).Contains
-//@   pure
 //@ func (Scope).Union
+//@   pure
+//@ func (Scope).Contains
 //@   pure
 //@ func ParseScope
 //@   pure
@@ -333,3 +334,54 @@ package ociauth
 //@   modifies nothing
 //@   requires resp != nil
 //@   ensures[marks-what-it-parsed] result != nil ==> isChallenge(result)
+
+// ---------------------------------------------------------------------------
+// C09 (continued): containment, stated on the representation. s1 contains s2
+// iff s1 is unlimited, or s2 is not and every repository entry of s2 has an
+// entry of the same name in s1 whose action mask covers it, and every other
+// element of s2 is an element of s1.
+//@ pure func reposCovered(s1 Scope, s2 Scope, n int) bool =
+//@   forall j int :: 0 <= j && j < n ==> exists i int :: 0 <= i && i < len(s1.repositories) &&
+//@     s1.repositories[i] == s2.repositories[j] && s1.actions[i] & s2.actions[j] == s2.actions[j]
+//@ pure func othersCovered(s1 Scope, s2 Scope, n int) bool =
+//@   forall j int :: 0 <= j && j < n ==> exists i int :: 0 <= i && i < len(s1.others) && s1.others[i] == s2.others[j]
+//@ func (Scope).Contains
+//@   strings atom
+//@   bytes bv
+//@   requires wf(s1) && wf(s2)
+//@   ensures[unlimited-contains-everything] s1.unlimited ==> result
+//@   ensures[only-unlimited-contains-unlimited] !s1.unlimited && s2.unlimited ==> !result
+//@   ensures[subset-on-the-representation] !s1.unlimited && !s2.unlimited ==>
+//@     result == (reposCovered(s1, s2, len(s2.repositories)) && othersCovered(s1, s2, len(s2.others)))
+//@   loop 0 invariant 0 <= i1 && i1 <= len(s1.repositories) && 0 - 1 <= rangeindex#0 && rangeindex#0 < len(s2.repositories)
+//@   loop 0 invariant reposCovered(s1, s2, rangeindex#0 + 1)
+//@   loop 0 invariant forall i int :: 0 <= i && i < i1 && rangeindex#0 >= 0 ==> s1.repositories[i] <= s2.repositories[rangeindex#0]
+//@   loop 0 invariant rangeindex#0 == 0 - 1 ==> i1 == 0
+//@   loop 1 invariant 0 <= i1 && i1 <= len(s1.repositories) && 0 <= i2 && i2 < len(s2.repositories) && repo2 == s2.repositories[i2]
+//@   loop 1 invariant reposCovered(s1, s2, i2)
+//@   loop 1 invariant forall i int :: 0 <= i && i < i1 ==> s1.repositories[i] < repo2
+//@   loop 2 invariant 0 <= i1 && i1 <= len(s1.others) && 0 - 1 <= rangeindex#1 && rangeindex#1 < len(s2.others)
+//@   loop 2 invariant reposCovered(s1, s2, len(s2.repositories)) && othersCovered(s1, s2, rangeindex#1 + 1)
+//@   loop 2 invariant forall i int :: 0 <= i && i < i1 && rangeindex#1 >= 0 ==> (lessRS(s1.others[i], s2.others[rangeindex#1]) || s1.others[i] == s2.others[rangeindex#1])
+//@   loop 2 invariant rangeindex#1 == 0 - 1 ==> i1 == 0
+//@   loop 3 invariant 0 <= i1 && i1 <= len(s1.others) && 0 <= rangeindex#1 && rangeindex#1 < len(s2.others) && sc2 == s2.others[rangeindex#1]
+//@   loop 3 invariant reposCovered(s1, s2, len(s2.repositories)) && othersCovered(s1, s2, rangeindex#1)
+//@   loop 3 invariant forall i int :: 0 <= i && i < i1 ==> lessRS(s1.others[i], sc2)
+
+// The representation-level statement is the set-level one (for well-formed
+// scopes): direction "covered implies subset".
+//@ lemma coveredImpliesSubset(s1 Scope, s2 Scope, r ResourceScope) =
+//@   wf(s1) && wf(s2) && !s1.unlimited && !s2.unlimited &&
+//@   reposCovered(s1, s2, len(s2.repositories)) && othersCovered(s1, s2, len(s2.others)) && holds(s2, r) ==> holds(s1, r)
+
+// Union: the part of its contract that discharges within the quick budget
+// (the full representation-level contract that was attempted is kept, not
+// claimed, in /verif/attempted/ociauth_Union.txt).
+//@ func (Scope).Union
+//@   strings atom
+//@   bytes bv
+//@   requires wf(s1) && wf(s2)
+//@   ensures[unlimited-absorbs] s1.unlimited || s2.unlimited ==> result.unlimited
+//@   ensures[limited-stays-limited] !s1.unlimited && !s2.unlimited ==> !result.unlimited
+//@   loop 0 invariant 0 <= i1 && i1 <= len(s1.repositories) && 0 <= i2 && i2 <= len(s2.repositories) && !r.unlimited && len(r.others) == 0
+//@   loop 1 invariant 0 <= i1 && i1 <= len(s1.others) && 0 <= i2 && i2 <= len(s2.others) && !r.unlimited
